@@ -26,7 +26,7 @@ def load_prop(prop):
 # ------------------------------------------------------------------------------------------------ workers
 def verify_function(args):
     """Worker: VC generation + solving for one function under contract."""
-    prop, key = args
+    prop, key, shard, nshards = args
     from pyvc import source, engine, solve, models
     from pyvc.core import Unsupported
     mod = load_prop(prop)
@@ -45,9 +45,18 @@ def verify_function(args):
             raise Unsupported(f"class model out of date for {touched}: {[stale[t] for t in touched]}")
         it = engine.Interp(fs, c, registry)
         obs = it.run()
-        for o in obs:
-            solve.solve(o)
+        out["generated"] = len(obs)
+        undecided_seconds = 0.0
+        for idx, o in enumerate(obs):
+            if idx % nshards != shard:
+                continue        # another worker of the pool generates the same obligations and discharges this one
+            # once this worker has spent a minute on obligations it could not decide, the function is demoted for this run anyway:
+            # the remaining obligations get the short pipeline (a refutation, if there is one, is still found and reported)
+            solve.solve(o, fast=undecided_seconds > 60)
+            if o.verdict == "unknown":
+                undecided_seconds += o.seconds or 0
             j = o.to_json()
+            j["index"] = idx
             j["label"] = o.info.get("label")
             if o.verdict == "refuted":
                 j["model"] = o.model
@@ -101,7 +110,7 @@ def replay(path):
     prop = payload["property"]
     if payload.get("kind") == "obligation":
         print(f"replay: obligation {payload['obligation']} (no concrete input) — re-running the deductive check")
-        r = verify_function((prop, payload["function"]))
+        r = verify_function((prop, payload["function"], 0, 1))
         bad = [o for o in r["obligations"] if o["id"] == payload["obligation"] and o["verdict"] not in ("proved", "reachable")]
         print(json.dumps(bad or r.get("reason"), indent=1))
         return 1 if (bad or r["status"] != "translated") else 0
@@ -124,14 +133,37 @@ def check_property(prop, tier, seed, rebaseline=False, jobs=None):
     contracts = dict(mod.CONTRACTS)
     harnesses = list(getattr(mod, "HARNESSES", []))
     jobs = jobs or min(16, os.cpu_count() or 4)
-    tasks_f = [(prop, k) for k in contracts if not k.startswith("__") and contracts[k].get("prop", prop) == prop and not contracts[k].get("assumed")]
+    tasks_f = [(prop, k, sh, int(contracts[k].get("shards", 1))) for k in contracts
+               if not k.startswith("__") and contracts[k].get("prop", prop) == prop and not contracts[k].get("assumed")
+               for sh in range(int(contracts[k].get("shards", 1)))]
     tasks_h = [(prop, h.name, tier, seed, k, getattr(h, "shards", 1)) for h in harnesses
                if tier in getattr(h, "tiers", ("quick", "thorough")) for k in range(getattr(h, "shards", 1))]
     with mp.get_context("fork").Pool(jobs) as pool:
         fr = pool.map_async(verify_function, tasks_f, chunksize=1)
         hr = pool.map_async(run_one_harness, tasks_h, chunksize=1)
-        fres = fr.get()
+        fres_sh = fr.get()
         hres_sh = hr.get()
+    # merge the obligation shards of one function (every shard generates all obligations and discharges its share)
+    fmerged = {}
+    for r in fres_sh:
+        m = fmerged.get(r["key"])
+        if m is None:
+            fmerged[r["key"]] = r
+            continue
+        if r["status"] != "translated" or m["status"] != "translated":
+            if m["status"] == "translated":
+                fmerged[r["key"]] = r
+            continue
+        if r.get("generated") != m.get("generated"):
+            m["status"], m["reason"] = "engine-error", "obligation shards disagree on the number of generated obligations"
+            continue
+        m["obligations"] = sorted(m["obligations"] + r["obligations"], key=lambda o: o["index"])
+        m["seconds"] = max(m["seconds"], r["seconds"])
+        m["dead"] = sorted(set(m["dead"]) | set(r["dead"]))
+    for m in fmerged.values():
+        if m["status"] == "translated" and len(m["obligations"]) != m.get("generated"):
+            m["status"], m["reason"] = "engine-error", f"{len(m['obligations'])} of {m.get('generated')} obligations came back from the shards"
+    fres = list(fmerged.values())
     # merge the shards of one harness
     merged = {}
     for r in hres_sh:
